@@ -1,4 +1,7 @@
-"""C15 - disassembling and re-assembling reproduces the original bytes (dasl: 4004/4040 and 6800/6802)."""
+"""C15 - disassembling and re-assembling reproduces the original bytes (dasl: 4004/4040 and 6800/6802).
+
+6800: besides the whole-program round trip, every known opcode x operand samples is checked instruction by instruction against the two
+Lean models the theorems of Props/C15_6800.lean are about (driver mode c15_68, see batches68/run_batch68)."""
 import json
 import os
 import re
@@ -438,6 +441,170 @@ def run_sweep_case(bdir, wd, sc):
     return dict(req=req, reasm_ok=re1 is not None, err=err1, rewrites=rew, stdout=so.decode("latin-1"))
 
 
+# --------------------------------------------------------------------------
+# 6800: every opcode x operand samples, instruction by instruction (driver mode c15_68)
+
+LINE68_RE = re.compile(rb"^(?:[A-Za-z_][A-Za-z0-9_]*:)?\t+([^\t;][^\t]*(?:\t[^\t;][^\t]*)?)\t+;((?: [0-9A-Fa-f]{2})+)\s*$")
+ORG68_RE = re.compile(rb"^\s*org\s+\$([0-9A-Fa-f]+)\s*$")
+LABEL68_RE = re.compile(r"\b((?:lab|sub)_([0-9A-Fa-f]{4}))\b")
+ASLERR_RE = re.compile(r"\((\d+)\)(?::\d+)?\s*:\s*error")
+
+
+def samples68(rng, typ, opsize, tier):
+    """operand byte strings for one row of OpcodeList (boundary values, addresses inside the batches, random)"""
+    if typ == "eImplicit":
+        return [b""]
+    nb = {"eDirect": 1, "eIndexed": 1, "eRelative": 1, "eExtended": 2, "eImmediate": 1 + opsize}[typ]
+    if nb == 1:
+        pool = [bytes([c]) for c in (0x00, 0x01, 0x10, 0x7f, 0x80, 0xfe, 0xff)]
+        rnd = [bytes([rng.randrange(256)]) for _ in range(8)]
+    else:
+        cand = [0x0000, 0x0034, 0x00ff, 0x0100, 0x1234, 0x7fff, 0x8000, 0xffff, 0x0008, 0x1004, 0x1010, 0xfff0, 0xfffc]
+        pool = [bytes([c >> 8, c & 255]) for c in cand]
+        rnd = [bytes([rng.randrange(256), rng.randrange(256)]) for _ in range(8)]
+    if tier == "quick":
+        return rng.sample(pool, 2) + rnd[:1]
+    return pool + rnd
+
+
+def batches68(bdir, rng, tier):
+    """[(base, lower, [(addr, bytes)])]: instructions on a 4-byte raster (filler: rts), every one an entry address.
+    quick: one batch at $1000 and one that ends at $FFFF (with -h); thorough: also page zero and $8000."""
+    from translate import tables
+    rows, _d = tables._deco_dump(bdir, "deco68.c", tables.DECO68_TYPES)
+    known = [(op, r) for op, r in enumerate(rows) if r[0] != "eUnknown"]
+    plans = [(0x1000, False), (None, True)] + ([(0x0000, False), (0x8000, True)] if tier != "quick" else [])
+    out = []
+    for base, lower in plans:
+        insts = [bytes([op]) + opnd for op, r in known for opnd in samples68(rng, r[0], r[1], tier)]
+        chunks = [insts[i:i + 1000] for i in range(0, len(insts), 1000)]   # one batch stays below 4 KiB
+        for ci, ch in enumerate(chunks):
+            b = base + 0x1000 * ci if base is not None else 0x10000 - 4 * len(ch) - 0x1000 * ci
+            out.append((b, lower, [(b + 4 * i, x) for i, x in enumerate(ch)]))
+    return out
+
+
+def parse_dasl68(stdout):
+    """address -> (SrcLine bytes, byte count) of every instruction/data line of a dasl listing"""
+    res, addr = {}, None
+    for line in stdout.split(b"\n"):
+        m = ORG68_RE.match(line)
+        if m:
+            addr = int(m.group(1), 16)
+            continue
+        m = LINE68_RE.match(line)
+        if m and addr is not None:
+            n = len(m.group(2).split())
+            res[addr] = (m.group(1).rstrip(b"\t"), n)
+            addr += n
+    return res
+
+
+def asm_lines68(bdir, wd, name, items):
+    """items = [(addr, text)] -> {addr: bytes | None}; every statement at its own `org`, labels defined by equ.
+    Statements asl reports an error for get None (asl writes no code file when there is any error, so it is run again without them)."""
+    labels = {}
+    for _a, t in items:
+        for m in LABEL68_RE.finditer(t):
+            labels[m.group(1)] = int(m.group(2), 16)
+    bad = set()
+    for attempt in range(3):
+        lines = ["\tcpu 6800"] + ["%s\tequ\t$%04x" % (n, v) for n, v in sorted(labels.items())]
+        lineno = {}
+        for a, t in items:
+            if a in bad:
+                continue
+            lines.append("\torg\t$%x" % a)
+            lines.append("\t" + t)
+            lineno[len(lines)] = a
+        f = os.path.join(wd, name + ".asm")
+        open(f, "wb").write(("\n".join(lines) + "\n").encode("latin-1"))
+        pf = os.path.join(wd, name + ".p")
+        if os.path.exists(pf):
+            os.unlink(pf)
+        rc, so, se = common.run_tool(bdir, "asl", ["-q", f, "-o", pf], wd, timeout=120)
+        if rc == 0 and os.path.exists(pf):
+            mem = {}
+            for st, d in mem_of_pfile(pf) or []:
+                for i, x in enumerate(d):
+                    mem[st + i] = x
+            res = {}
+            for a, _t in items:
+                if a in bad:
+                    res[a] = None
+                    continue
+                bs = []
+                while len(bs) < 4 and (a + len(bs)) in mem:
+                    bs.append(mem[a + len(bs)])
+                res[a] = bytes(bs)
+            return res, None
+        errl = {int(m.group(1)) for m in ASLERR_RE.finditer((so + se).decode("latin-1"))}
+        newbad = {lineno[l] for l in errl if l in lineno}
+        if not newbad:
+            return None, "asl failed without a usable error position: " + (so + se).decode("latin-1")[-300:]
+        bad |= newbad
+    return None, "asl still reports errors after removing the rejected statements"
+
+
+def run_batch68(bdir, wd, bi, base, lower, insts):
+    """one dasl run over the batch image + the per-statement assembly; returns (c15 request, [c15_68 requests], metas, problems)"""
+    img = bytearray([0x39]) * (4 * len(insts))
+    for a, bs in insts:
+        img[a - base:a - base + len(bs)] = bs
+    bf = os.path.join(wd, "b68_%d.bin" % bi)
+    open(bf, "wb").write(bytes(img))
+    eargs = []
+    for a, _ in insts:
+        eargs += ["-entryaddress", str(a)]
+    args = (["-h"] if lower else []) + ["-cpu", "6800", "-binfile", "%s@%d" % (bf, base)] + eargs
+    rc, so, se = common.run_tool(bdir, "dasl", args, wd, timeout=120)
+    if rc != 0:
+        return None, [], [], ["dasl failed on the 6800 opcode batch at %x: rc=%s %s" % (base, rc, se[-200:])]
+    listing = parse_dasl68(so)
+    items, problems = [], []
+    for a, bs in insts:
+        if a not in listing:
+            problems.append("no listing line for the entry address %x (bytes %s)" % (a, bs.hex()))
+            continue
+        items.append((a, listing[a][0].decode("latin-1")))
+    asmres, err = asm_lines68(bdir, wd, "a68_%d" % bi, items)
+    if asmres is None:
+        return None, [], [], [err]
+    req15 = "6800 %d 1 %d %s %d %s %d %s %s none" % (1 if lower else 0, base, bytes(img).hex(), len(insts), " ".join("d:%d" % a for a, _ in insts),
+                                                   rc, so.hex() or "-", se.hex() or "-")
+    reqs, metas = [], []
+    by_addr = dict(insts)
+    for a, t in items:
+        pairs = {m.group(1): int(m.group(2), 16) for m in LABEL68_RE.finditer(t)}
+        ra = asmres[a]
+        reqs.append("%d %d %s %d %s %s %s" % (1 if lower else 0, a, bytes(img[a - base:a - base + 4]).hex(), len(pairs),
+                                            " ".join("%s %d" % kv for kv in pairs.items()), t.encode("latin-1").hex(),
+                                            "none" if ra is None else (ra.hex() or "-")))
+        metas.append(dict(addr=a, bytes=by_addr[a].hex(), text=t, asl=None if ra is None else ra.hex(), lower=lower))
+    return req15, reqs, metas, problems
+
+
+def probe_cut68(bdir, wd):
+    """6800 instructions cut off by the end of the image / by the end of the address space (raw images, not assembler output):
+    [(name, sig, c15 driver request, info)]"""
+    out = []
+    for name, sig, chunks_, entry in (
+            ("cut", "dasl-instruction-cut-at-image-end", [(0x1000, bytes([0x01, 0xb6, 0x12]))], 0x1000),
+            ("wrap", "dasl-instruction-wraps-64k", [(0xfffe, bytes([0xb6, 0x12])), (0x0000, bytes([0x10]))], 0xfffe)):
+        largs = []
+        for i, (st, d) in enumerate(chunks_):
+            bf = os.path.join(wd, "%s%d.bin" % (name, i))
+            open(bf, "wb").write(d)
+            largs += ["-binfile", "%s@%d" % (bf, st)]
+        args = ["-cpu", "6800"] + largs + ["-entryaddress", str(entry)]
+        rc, so, se = common.run_tool(bdir, "dasl", args, wd, timeout=30)
+        req = "6800 0 %d %s 1 d:%d %d %s %s none" % (len(chunks_), " ".join("%d %s" % (st, d.hex()) for st, d in chunks_), entry,
+                                                    rc if isinstance(rc, int) else 99, so.hex() or "-", se.hex() or "-")
+        out.append((name, sig, req, dict(image=[(st, d.hex()) for st, d in chunks_], entry=entry, dasl_rc=rc,
+                                         dasl_stdout=so.decode("latin-1")[:600], dasl_stderr=se.decode("latin-1")[:300])))
+    return out
+
+
 def kv_of(ans):
     return dict(x.split("=", 1) for x in ans.split() if "=" in x)
 
@@ -453,7 +620,7 @@ def probe_cli(bdir, wd):
 
 def run(args):
     res = common.Result("C15", args.tier, args.seed, "proof")
-    bdir, audit, proof_problems = common.standard_setup(res, "C15", ["Deco4004", "Deco68", "DisIsa4004"])
+    bdir, audit, proof_problems = common.standard_setup(res, "C15", ["Deco4004", "Deco68", "DisIsa4004", "DisIsa6800"])
     if bdir is None:
         return res.finish()
     ok = not any(p.startswith("driver does not build") for p in proof_problems)
@@ -462,7 +629,8 @@ def run(args):
     spec_fail, corr_fail, samples = [], [], []
     dist = dict(cases=0, cpu4004=0, cpu6800=0, bin=0, hex=0, lower=0, entries={1: 0, 2: 0, 3: 0, 4: 0}, vector=0, embedded_data=0, gap=0,
                 areas_code=0, areas_data=0, bytes_disassembled=0, instructions_traced=0, unchanged_reassembly_ok=0, rewritten=0,
-                sweep_opcodes=0, sweep_reassembled=0, genfail=0, feature_cases=0)
+                sweep_opcodes=0, sweep_reassembled=0, genfail=0, feature_cases=0,
+                sweep68_batches=0, sweep68_instructions=0, sweep68_roundtrip_ok=0, sweep68_known_bad=0, sweep68_opcodes=0, sweep68_labels=0, cut_probes=0)
     distinct = set()
     with common.Workdir("c15") as wd:
         plan = []
@@ -509,8 +677,23 @@ def run(args):
             sreqs.append(r["req"])
             smetas.append((sc, r))
         cli_ok, cli_info = probe_cli(bdir, wd)
-    answers = common.driver("c15", reqs + sreqs, timeout=3600) if ok and (reqs or sreqs) else []
-    a1, a2 = answers[:len(reqs)], answers[len(reqs):]
+        cut68 = probe_cut68(bdir, wd)
+        # 6800: every opcode x operand samples, instruction by instruction
+        b68_req15, b68_reqs, b68_metas, b68_bases = [], [], [], []
+        for bi, (base, lower, insts) in enumerate(batches68(bdir, common.rng_for(args.seed, "C15-68"), args.tier)):
+            r15, rq, mt, probs = run_batch68(bdir, wd, bi, base, lower, insts)
+            for pr in probs:
+                proof_problems.append("6800 instruction sweep: " + pr)
+            if r15 is None:
+                continue
+            b68_req15.append(r15)
+            b68_bases.append((base, lower, len(insts)))
+            b68_reqs += rq
+            b68_metas += mt
+    answers = common.driver("c15", reqs + sreqs + b68_req15 + [c[2] for c in cut68], timeout=3600) if ok and (reqs or sreqs or b68_req15) else []
+    a1, a2, a3 = answers[:len(reqs)], answers[len(reqs):len(reqs) + len(sreqs)], answers[len(reqs) + len(sreqs):len(reqs) + len(sreqs) + len(b68_req15)]
+    a4 = answers[len(reqs) + len(sreqs) + len(b68_req15):]
+    a68 = common.driver("c15_68", b68_reqs, timeout=3600) if ok and b68_reqs else []
 
     def feature_sig(c, kv, r):
         f = c["feats"]
@@ -586,28 +769,103 @@ def run(args):
             spec_fail.append(dict(sig="sweep-%s-%02X-not-reassemblable" % (sc["cpu"], sc["op"]), tag="sweep:" + opname,
                                   why="opcode %s: dasl prints text that asl rejects or assembles to other bytes (%s)" % (opname, (r["err"] or kv.get("bad", ""))[-200:].strip()),
                                   image=sc["img"].hex(), start=sc["start"], dasl_stdout=r["stdout"]))
+    # ---- 6800: instructions that do not fit into the image
+    for (name, sig, _req, info), ans in zip(cut68, a4):
+        kv = kv_of(ans)
+        dist["cut_probes"] = dist.get("cut_probes", 0) + 1
+        if kv.get("text") != "eq" or kv.get("err") != "eq" or kv.get("areas") != "eq":
+            mt = bytes.fromhex(kv["mtext"]).decode("latin-1") if kv.get("mtext", "-") not in ("-", "") else ""
+            corr_fail.append(dict(tag="cut68:" + name, why="dasl's output for an instruction that does not fit into the image differs from the Lean model",
+                                  model_stdout=mt, **info))
+        if kv.get("inside") != "ok":
+            spec_fail.append(dict(sig=sig, tag="cut68:" + name, why="a reported code area is not inside the loaded image (inside=%s)" % kv.get("inside"), **info))
+    # ---- 6800 instruction sweep
+    for (base, lower, ninst), ans in zip(b68_bases, a3):
+        kv = kv_of(ans)
+        dist["sweep68_batches"] += 1
+        if kv.get("text") != "eq" or kv.get("err") != "eq" or kv.get("areas") != "eq" or kv.get("hang") != "0":
+            mt = bytes.fromhex(kv["mtext"]).decode("latin-1") if kv.get("mtext", "-") not in ("-", "") else ""
+            corr_fail.append(dict(tag="sweep68:batch@%x" % base, why="dasl's listing of the 6800 opcode batch differs from the Lean model "
+                                  "(text=%s err=%s areas=%s hang=%s)" % (kv.get("text"), kv.get("err"), kv.get("areas"), kv.get("hang")),
+                                  lower=lower, instructions=ninst, model_stdout=mt[:3000]))
+    ops68, samples68_ev = set(), []
+    for m, ans in zip(b68_metas, a68):
+        kv = kv_of(ans)
+        op = int(m["bytes"][:2], 16)
+        dist["sweep68_instructions"] += 1
+        ops68.add(op)
+        dist["sweep68_labels"] += int("lab_" in m["text"] or "sub_" in m["text"])
+        if "error" in kv or "dec" not in kv:
+            proof_problems.append("driver c15_68 cannot read its request for %s" % m)
+            continue
+        tag = "sweep68:%04X:%s" % (m["addr"], m["bytes"])
+        if len(samples68_ev) < 6 and dist["sweep68_instructions"] % 97 == 1:
+            samples68_ev.append(dict(tag=tag, dasl_text=m["text"], asl_bytes=m["asl"], verdict={k: v for k, v in kv.items() if k not in ("mtext", "masm")}))
+        if kv["dec"] != "eq":
+            corr_fail.append(dict(tag=tag, why="the statement dasl prints differs from M6800.decode", dasl_text=m["text"],
+                                  model_text=bytes.fromhex(kv["mtext"]).decode("latin-1") if kv.get("mtext", "-") != "-" else "", lower=m["lower"]))
+        if kv["enc"] != "eq":
+            corr_fail.append(dict(tag=tag, why="the bytes asl makes of dasl's statement differ from A6800.assemble", dasl_text=m["text"],
+                                  asl_bytes=m["asl"], model_bytes=kv.get("masm")))
+        if kv["bad"] == "1":
+            dist["sweep68_known_bad"] += 1
+        if kv["rt"] == "ok":
+            dist["sweep68_roundtrip_ok"] += 1
+            if kv["thm"] == "fixed":
+                log("6800 sweep: %s is in a known-bad class but round-trips on the real tools (defect repaired?)" % tag)
+        else:
+            if kv["bad"] == "1":
+                sig = {0x14: "sweep-6800-14-not-reassemblable", 0x34: "sweep-6800-34-not-reassemblable",
+                       0xc7: "sweep-6800-C7-not-reassemblable"}.get(op, "deco68-extended-zero-page")
+            else:
+                sig = None
+            spec_fail.append(dict(sig=sig, tag=tag, why="6800 instruction %s at %04X: dasl prints `%s`, asl makes %s of it" %
+                                  (m["bytes"], m["addr"], m["text"], m["asl"] or "an error"),
+                                  image=m["bytes"], start=m["addr"], dasl_text=m["text"], asl_bytes=m["asl"], lower=m["lower"]))
+    dist["sweep68_opcodes"] = len(ops68)
     if not cli_ok:
         spec_fail.append(dict(sig="entryaddress-name-form", why="the documented `-entryaddress <address>,<name>` form is rejected", **cli_info))
 
     res.coverage = common.proof_coverage(audit, "C15", [
         "translate/tables.py (OpcodeList[256] of deco4004.c/deco68.c via compiled dumper, InitFields() call list of code4004.c via clang-14 AST)",
         "correspondence: real dasl vs Model.Dis (text, stderr, areas) on generated images and on one image per opcode (differential test)",
-        "round trip through the real asl/p2bin/p2hex/dasl (oracle run, not a proof)"])
+        "round trip through the real asl/p2bin/p2hex/dasl (oracle run, not a proof)",
+        "6800 instruction sweep: real dasl text vs M6800.decode, real asl bytes vs A6800.assemble, real round trip vs C15_6800_roundtrip/"
+        "C15_6800_exclusions_exact on every known opcode x operand samples (differential test of the two models the theorems are about)"])
     res.coverage.update(
-        evaluations=len(reqs) + len(sreqs), distinct_nontrivial=len(distinct),
+        evaluations=len(reqs) + len(sreqs) + len(b68_reqs), distinct_nontrivial=len(distinct),
         rule="random valid 4004/4040 and 6800 programs (blocks ending in jun/bbl resp. bra/jmp/rts/rti, branches and calls to instruction starts inside the image, "
              "embedded data after terminal instructions, org gaps, 1..4 entry addresses, 6800 vector entries), image loaded via -binfile@start or Intel-hex -hexfile, "
-             "optionally -h; distinct = distinct dasl listings; non-trivial = every listing contains at least one traced instruction; plus one image per known opcode",
-        samples=samples, distribution=dist, sweep_not_reassemblable=sweep_bad, exhaustive=False)
+             "optionally -h; distinct = distinct dasl listings; non-trivial = every listing contains at least one traced instruction; plus one image per known opcode; "
+             "plus (6800) every known opcode x boundary/random operand bytes on a 4-byte raster at $1000 and up to $FFFF (thorough: also page zero and $8000), each one an entry address",
+        samples=samples, samples_6800_sweep=samples68_ev, distribution=dist, sweep_not_reassemblable=sweep_bad, exhaustive=False)
     res.assumptions = ["re-assembly is done with `asl -cpu 4040` for dasl's CPU 4004 (dasl prints no CPU line and decodes the 4040 extensions) and `-cpu 6800`",
                        "memory of a code file is read by the harness-side reader common.parse_pfile_py",
-                       "label definition/lookup and operand text parsing are exercised through the real asl, not proved"]
-    return common.conclude(res, proof_problems, spec_fail, corr_fail, len(reqs) + len(sreqs))
+                       "label definition/lookup and operand text parsing are exercised through the real asl, not proved "
+                       "(6800: the statement-level parsing of the printed operand forms is modelled in Model/Dis/A6800.lean and compared with the real asl on every sweep instruction)",
+                       "6800 instruction sweep: the per-statement re-assembly defines the labels dasl invented by `equ` lines (final-pass values), one statement per `org`"]
+    return common.conclude(res, proof_problems, spec_fail, corr_fail, len(reqs) + len(sreqs) + len(b68_reqs))
 
 
 def replay(args):
     d = json.load(open(args.replay))
     print(json.dumps({k: (v if len(str(v)) < 3000 else str(v)[:3000] + "...") for k, v in d.items()}, indent=1))
+    if "image" in d and "start" in d and "dasl_text" in d and "source" not in d:
+        # a single 6800 instruction of the opcode sweep
+        bdir = common.repo_build("hooks")
+        with common.Workdir("c15r") as wd:
+            img = bytes.fromhex(d["image"]) + bytes([0x39] * 4)
+            bf = os.path.join(wd, "i.bin")
+            open(bf, "wb").write(img)
+            a = (["-h"] if d.get("lower") else []) + ["-cpu", "6800", "-binfile", "%s@%d" % (bf, d["start"]), "-entryaddress", str(d["start"])]
+            rc, so, se = common.run_tool(bdir, "dasl", a, wd)
+            print("dasl", " ".join(a[:-4] + ["-binfile", "i.bin@%d" % d["start"], "-entryaddress", str(d["start"])]), "-> rc", rc)
+            print(so.decode("latin-1"))
+            print(se.decode("latin-1"))
+            res_, err = asm_lines68(bdir, wd, "r", [(d["start"], d["dasl_text"])])
+            got = None if res_ is None else res_.get(d["start"])
+            print("asl -cpu 6800 on `%s` at $%X: %s (image: %s)" % (d["dasl_text"], d["start"], "error" if got is None else got.hex(), d["image"]))
+        return 0
     if "source" in d and "dasl_args" in d:
         bdir = common.repo_build("hooks")
         with common.Workdir("c15r") as wd:
